@@ -318,7 +318,8 @@ def tlc_hist_to_history(hid, hist, opt=None, fullfirst=False):
             elif e["k"] == "eps":
                 ops.append(op_eps(e["n"], e["v"]))
             elif e["k"] == "sec":
-                v = {"absent": "absent", "bad": "bad", "v1": "crt:" + e["n"], "v2": "crt:" + e["n"] + "v2"}[e["v"]]
+                v = {"absent": "absent", "bad": "bad", "v1": "crt:" + e["n"], "v2": "crt:" + e["n"] + "v2",
+                     "w1": "crt:shared1", "w2": "crt:shared2"}[e["v"]]
                 ops.append(op_sec(e["n"], v))
         st = dict(ops=ops, fullfirst=fullfirst)
         if b.get("fault", "none") != "none":
